@@ -24,7 +24,7 @@ type shardRecord struct {
 }
 
 func regIdentity(e ring.InstanceDesc) string {
-	return fmt.Sprintf("%d/%v", e.RegisteredTimestamp, e.Tokens)
+	return fmt.Sprintf("%d/%v/%s", e.RegisteredTimestamp, e.Tokens, e.Zone)
 }
 
 // runC12: ring histories produced by lifecyclers (joins, leaves, read-only toggles) plus truthful
@@ -60,7 +60,7 @@ func runC12(s *sim.Sim) {
 				}
 				// an instance that keeps its registration but changes its tokens moves data in a way no timestamp reveals
 				for id, e := range in.Ingesters {
-					if o, ok := out.Ingesters[id]; ok && o.RegisteredTimestamp == e.RegisteredTimestamp && fmt.Sprint(o.Tokens) != fmt.Sprint(e.Tokens) {
+					if o, ok := out.Ingesters[id]; ok && o.RegisteredTimestamp == e.RegisteredTimestamp && (fmt.Sprint(o.Tokens) != fmt.Sprint(e.Tokens) || o.Zone != e.Zone) {
 						lastSilentTokenChange = s.Elapsed()
 						s.Probe("silent-token-change")
 					}
